@@ -141,7 +141,10 @@ fn run_set<S: PS>(ctx: &Ctx) -> Acc {
     lens.retain(|&n| n + 8 <= big_ctx.len());
     let jobs: Vec<(usize, Mode, usize)> = lens.iter().flat_map(|&n| MODES.iter().flat_map(move |&mo| (0..3).map(move |k| (n, mo, k)))).collect();
     let (Ok(Ok(pk)),) = (guarded(|| S::pk_from(&pk_b)),) else { return acc };
+    drop(pk);
     let res = par_map(jobs.len(), |j| {
+        // own key object per worker (key types need not be Sync)
+        let Ok(Ok(pk)) = guarded(|| S::pk_from(&pk_b)) else { return Acc::new() };
         let (n, mode, model) = jobs[j];
         let mut a = Acc::new();
         let c = &big_ctx[..n];
